@@ -54,6 +54,8 @@ mutual
     | forUp (i lim : Bytes) (body : JsStmts)
     /-- `if (lim > 0) {…} else {…}` -/
     | ifPos (lim : Bytes) (body els : JsStmts)
+    /-- `for (var i = init; i < lim; i += incr) {…}` -/
+    | forStep (i lim : Bytes) (init incr : JsExpr) (body : JsStmts)
   inductive JsStmts where
     | nil
     | cons (s : JsStmt) (rest : JsStmts)
@@ -109,6 +111,17 @@ def execLoop (body : JEnv → SRes) (i lim : Bytes) : Nat → JEnv → SRes
             execLoop body i lim fuel (setLocal env1 i r)
       else .ok env
 
+/-- `for (…; i < lim; i += incr)` after the initialisation (§12.6.3; `i += e` is `i = i + e`, §11.13.2) -/
+def execLoopStep (body : JEnv → SRes) (i lim : Bytes) (incr : JsExpr) : Nat → JEnv → SRes
+  | 0, _ => .unspec
+  | fuel + 1, env =>
+    withVal (eval env (.bin .lt (.local i) (.local lim))) fun c =>
+      if toBoolean c then
+        (body env).bind fun env1 =>
+          withVal (eval env1 (.local i)) fun v => withVal (eval env1 incr) fun d => withVal (binop .add v d) fun r =>
+            execLoopStep body i lim incr fuel (setLocal env1 i r)
+      else .ok env
+
 /-- `list[idx]` on variables -/
 def indexVar (env : JEnv) (list idx : Bytes) : JOut :=
   (eval env (.local list)).bind fun l => (eval env (.local idx)).bind fun i =>
@@ -136,6 +149,8 @@ mutual
     | .varLength x list, env => withVal (eval env (.call1 .length (.local list))) fun v => .ok (setLocal env x v)
     | .varIndex x list idx, env => withVal (indexVar env list idx) fun v => .ok (setLocal env x v)
     | .forUp i lim body, env => execLoop (execStmts body) i lim fuel (setLocal env i (.num 0))
+    | .forStep i lim init incr body, env =>
+      withVal (eval env init) fun v => execLoopStep (execStmts body) i lim incr fuel (setLocal env i v)
     | .ifPos lim body els, env =>
       withVal (eval env (.bin .gt (.local lim) (.num 0))) fun c =>
         if toBoolean c then execStmts body env else execStmts els env
